@@ -87,6 +87,7 @@ RRedsOne == { R("sum", "RS1", 0, "int", NoInit), R("min", "RMIN", 0, "int", NoIn
 RRedsQuick  == { R("sum", "RS1", 0, "int", NoInit), R("multiply", "RM1", 0, "int", NoInit),
                  R("min", "RMIN", 0, "int", NoInit), R("max", "RMAX", 0, "int", NoInit),
                  R("boolOr", "RBO", 3, "bool", NoInit), R("bitXor", "RX1", 0, "int", NoInit) }
+OpsRangeQuick == { "range", "tile", "r.every", "r.some", "r.findIndex", "r.map", "r.mapTo", "r.reduce" }
 OpsRangeTiled == { "range", "r.every", "r.map", "r.forEach", "r.toArray" }
 OpsRange == { "range", "tile", "r.every", "r.some", "r.findIndex", "r.map", "r.mapTo", "r.toArray", "r.forEach", "r.reduce" }
 
@@ -104,9 +105,12 @@ ItersAll == { Dim(3), Dim(0), Rg(1, 4, 1), Rg(4, 0, -1), Rg(0, 5, 2), Rg(5, -1, 
 ItersPair == { Dim(2), Rg(3, 0, -1), Ar(<<1, 1>>) }
 ItersPair4 == ItersPair \cup { Rg(1, 6, 2) }
 NoLoops == {}
+ItersTwo == { Dim(2), Rg(3, 0, -1) }
 LoopsQuick == { << <<a>>, <<>> >> : a \in ItersAll }
-              \cup { << <<a, b>>, <<>> >> : a \in ItersPair, b \in ItersPair }
-              \cup { << <<a>>, <<b>> >> : a \in ItersPair, b \in ItersPair }
+              \cup { << <<a, b>>, <<>> >> : a \in ItersTwo, b \in ItersTwo }
+              \cup { << <<a>>, <<b>> >> : a \in ItersTwo, b \in ItersTwo }
+              \cup { << <<Ar(<<1, 1>>), Dim(2)>>, <<>> >>, << <<Rg(3, 0, -1), Ar(<<1, 1>>)>>, <<>> >>,
+                     << <<Ar(<<1, 1>>)>>, <<Rg(3, 0, -1)>> >>, << <<Dim(2)>>, <<Ar(<<1, 1>>)>> >> }
               \cup { << <<Dim(2), Rg(3, 0, -1), Ar(<<1, 1>>)>>, <<>> >>,
                      << <<Rg(1, 6, 2)>>, <<Dim(2), Ar(<<1, 1>>)>> >>,
                      << <<Dim(2), Rg(2, 0, -1), Ar(<<0, 1>>)>>, <<Rg(0, 3, 2), Dim(1), Rg(1, -1, -1)>> >> }
